@@ -115,7 +115,7 @@ class Gen:
         lo_i = int(lo) if lo is not None else (int(lox) + 1 if lox is not None else (1 if root == 'xs:positiveInteger' else (0 if root == 'xs:nonNegativeInteger' else -20)))
         hi_i = int(hi) if hi is not None else lo_i + 40
         if root == 'xs:decimal' and rng.random() < 0.6:
-            v = round(rng.uniform(lo_i if lox is None else lo_i - 0.5, hi_i), rng.choice([0, 1, 2]))
+            v = round(rng.uniform(lo_i if lox is None else lo_i - 0.5, hi_i), rng.choice([0, 1, 2, 2, 7, 9]))      # up to 9 fractional digits: every one must survive
             if lox is not None and v <= int(lox):
                 v = int(lox) + 0.5
             if v < lo_i and lox is None:
